@@ -38,14 +38,21 @@ class ReplayBuild:
         env["RUSTFLAGS"] = (env.get("RUSTFLAGS", "") + " --cfg raindb_verif -A warnings").strip()
         env["CARGO_NET_OFFLINE"] = "true"
         env["CARGO_TARGET_DIR"] = os.path.join(VERIF, "build", "replay-target")
-        p = subprocess.run(["cargo", "build", "--offline", "-q"], cwd=rp, env=env, capture_output=True, text=True)
-        if p.returncode != 0:
-            # lock file may not fit the tiny crate: retry without it
-            os.remove(os.path.join(rp, "Cargo.lock"))
+        # the target directory is shared (dependencies are built once); builds are serialised and
+        # the binary is copied out so that concurrent checks of different trees cannot mix binaries
+        import fcntl
+        os.makedirs(env["CARGO_TARGET_DIR"], exist_ok=True)
+        with open(os.path.join(env["CARGO_TARGET_DIR"], ".verif-lock"), "w") as lk:
+            fcntl.flock(lk, fcntl.LOCK_EX)
             p = subprocess.run(["cargo", "build", "--offline", "-q"], cwd=rp, env=env, capture_output=True, text=True)
-        if p.returncode != 0:
-            raise RuntimeError("replay crate does not build against the current tree:\n" + p.stderr[-3000:])
-        self.bin = os.path.join(env["CARGO_TARGET_DIR"], "debug", "verif-replay")
+            if p.returncode != 0:
+                # lock file may not fit the tiny crate: retry without it
+                os.remove(os.path.join(rp, "Cargo.lock"))
+                p = subprocess.run(["cargo", "build", "--offline", "-q"], cwd=rp, env=env, capture_output=True, text=True)
+            if p.returncode != 0:
+                raise RuntimeError("replay crate does not build against the current tree:\n" + p.stderr[-3000:])
+            self.bin = os.path.join(self.dir, "verif-replay")
+            shutil.copy(os.path.join(env["CARGO_TARGET_DIR"], "debug", "verif-replay"), self.bin)
         return self
 
     def run(self, text):
@@ -246,6 +253,28 @@ def _search_family(fam, repo):
                 cex["observed"] = out
                 return cex, cex["oracle"]
     return None, "searched %d inputs of the registered family, none fails on the real code" % len(fam)
+
+
+BOUNDS = {
+    "family_db_views": "whole-database histories of at most 85 operations over 7 keys (8 hand-written + 10 pseudo-random per seed); every live snapshot and the latest state read back through get, both scan directions, seek to every key, a zig-zag walk and 5 cursor scripts per key",
+    "family_log_reader": "write-ahead-log byte streams built from the hand-written and seeded append / reopen / truncate / flip scripts of tools/replay.py (records up to 3 blocks)",
+    "family_table_get": "one table of 16 entries (4 user keys x 4 versions) at block sizes 1, 64, 150, 4096 with 49 lookups, plus a one-entry table",
+    "family_key_range": "three hand-written file lists",
+}
+
+
+def run_family(name, repo, seed=0):
+    """Bounded stand-in: runs every input of a family on the real code.  Returns a dict."""
+    fn = globals()[name]
+    fam = fn(seed)
+    key = (name, repo, seed)
+    if key in _SEARCH_MEMO:
+        cex, oracle = _SEARCH_MEMO[key]
+    else:
+        cex, oracle = _search_family(fam, repo)
+        _SEARCH_MEMO[key] = (cex, oracle)
+    return {"family": name, "inputs": len(fam), "bound": BOUNDS.get(name, ""), "counterexample": cex,
+            "result": "violated" if cex else "holds on every input run", "sample": cex_to_text(fam[0]).split("\n")[:12]}
 
 
 def replay_file(path, repo):
